@@ -50,6 +50,46 @@ def echo_twice(texts, rep, cov):
     cov["cli_echo_pairs"] = n
 
 
+def literal_round_trips(rep, cov, tier):
+    """every literal of Literal.tla that the parser accepts, as the initial value of a variable: parse, render, re-parse -
+    the constant must come back as the same value (derived PartialEq of the libraries) and the text must be a fixed point"""
+    from concurrent.futures import ThreadPoolExecutor
+    import c09
+    groups = ["int", "real", "dur", "time", "text"]
+    with ThreadPoolExecutor(max_workers=len(groups)) as ex:
+        runs = list(ex.map(lambda g: vlib.tlc_check("Literal.tla", "MC_Literal_%s.cfg" % g, workers=3, timeout=3600, name="c10_MC_Literal_" + g), groups))
+    recs = []
+    for r in runs:
+        cov["states"] += r["states"]
+        cov["transitions"] += r["transitions"]
+        recs += [x for x in r["replay"] if x.get("R") == "lit" and x["expect"] != "reject"]
+    texts = [c09.place(r) for r in recs]
+    res = vlib.harness("parse", [{"id": i, "text": t, "render": True, "tree": False} for i, t in enumerate(texts)])
+    n = 0
+    for rec, text, r in zip(recs, texts, res):
+        if not r.get("ok"):
+            continue                      # not accepted: C09's business
+        n += 1
+        labels = set(rec["labs"]) | {"literal"}
+        lit = "".join(rec["text"])
+        sig = None
+        if "panic" in r or "abort" in r:
+            sig = "panic:render"
+        elif r.get("render_ok") is False:
+            sig = "render-error"
+        elif r.get("reparse_ok") is False:
+            sig = "rendered-text-rejected"
+        elif not r.get("reparse_eq"):
+            sig = "reparsed-differs"
+        elif r.get("rerender_same") is False:
+            sig = "render-not-fixed-point"
+        if sig:
+            rep.add("literal:%s:%s" % (rec["kind"], sig), labels=labels,
+                    detail={"literal": lit, "rendered": (r.get("rendered") or "")[:300], "diag": r.get("reparse_diag")},
+                    replay={"text": text, "cmd": "vph parse with render=true"})
+    cov["literal_round_trips"] = n
+
+
 def main():
     tier = sys.argv[1] if len(sys.argv) > 1 else vlib.TIER
     vlib.TIER = tier
@@ -63,6 +103,7 @@ def main():
         failing.add(id(d))
         rep.add(norm_sig(sig), labels=set(d["labs"]), detail=dict(det, source=text, full_signature=sig, labels=d["labs"]),
                 replay={"text": text, "cmd": "vph parse with render=true"})
+    literal_round_trips(rep, cov, tier)
     good = [gram.spell(d["toks"])[0] for d in ds if id(d) not in failing]
     step = max(1, len(good) // (60 if tier == "quick" else 600))
     echo_twice(good[::step], rep, cov)
